@@ -105,13 +105,22 @@ def match_language(pattern):
     return core if end_anchored else z3.Concat(core, z3.Full(z3.ReSort(z3.StringSort())))
 
 
+def _check(sol, timeout_ms):
+    """check() under the hard wall-clock guard; a sat verdict is re-run here for the witness."""
+    from .smt import guarded_check
+    r, _ = guarded_check(sol, timeout_ms)
+    if r == z3.sat:
+        r = sol.check()
+    return r
+
+
 def equivalent(a, b, timeout_ms=20000):
     """-> ('unsat' = equivalent | 'sat' | 'unknown', witness string or None)"""
     s = z3.String("w")
     sol = z3.Solver()
     sol.set(timeout=timeout_ms)
     sol.add(z3.InRe(s, a) != z3.InRe(s, b))
-    r = sol.check()
+    r = _check(sol, timeout_ms)
     if r == z3.sat:
         return "sat", sol.model()[s].as_string()
     return ("unsat" if r == z3.unsat else "unknown"), None
@@ -123,7 +132,7 @@ def included(a, b, timeout_ms=20000):
     sol = z3.Solver()
     sol.set(timeout=timeout_ms)
     sol.add(z3.InRe(s, a), z3.Not(z3.InRe(s, b)))
-    r = sol.check()
+    r = _check(sol, timeout_ms)
     if r == z3.sat:
         return "sat", sol.model()[s].as_string()
     return ("unsat" if r == z3.unsat else "unknown"), None
